@@ -27,6 +27,10 @@ pub fn run(ctx: &Ctx) -> Report {
     let ts = types();
     let mut lens: Vec<usize> = (0..=300).collect();
     lens.extend([511usize, 512, 1000, 4096, 65536]);
+    if ctx.light() {
+        lens = (0..=66).collect();
+        lens.extend([127usize, 128, 129, 255, 256, 257, 300, 4096]);
+    }
     let reps = ctx.budget(1, 6, 1);
     for (ti, t) in ts.iter().enumerate() {
         if !ctx.wants_name(&t.name) || (ti as u64) % ctx.nshards != ctx.shard {
@@ -83,7 +87,7 @@ pub fn run(ctx: &Ctx) -> Report {
     if ctx.shard == 0 {
         equivalences(ctx, &mut rep);
     }
-    rep.extra.insert("x_lengths_exhaustive_0_300".into(), J::B(true));
+    rep.extra.insert("x_lengths_exhaustive_0_300".into(), J::B(!ctx.light()));
     rep
 }
 
